@@ -2,7 +2,8 @@
 
 Proofs: Props/C11.v (Model/FilterFlow.v: data flow of run_feedforward_filter on top of the event
 trace of Model/FeedforwardSched.v, block layout of the covariance / process-matrix assembly,
-Kalman recursion == one-shot Gauss-Markov solution for positive-definite data).
+Kalman recursion == one-shot Gauss-Markov solution for positive-definite data; compensation formulas
+traced from the live _compute_feedforward_result by tools/reg/c11.py into Gen/C11Gen.v on every run).
 
 Tie between model and code (CALL-TRACE CORRESPONDENCE).  `pyins.kalman.correct`,
 `pyins.kalman.compute_process_matrices`, `pyins.filters._initialize_covariance`,
@@ -23,10 +24,13 @@ the identity of z and R, time_delta == times[j] - times[i] are asserted on every
 Support / falsifier on the implementation (INDEPENDENT one-shot Gauss-Markov solution).  From the
 PUBLIC model objects only (InsErrorModel.system_matrices / transform_to_output /
 transform_to_internal, EstimationModel attributes F G H J P q v output_matrix,
-Measurement.compute_matrices) the harness assembles its own F, G, q, discretises with its own
-Van Loan form (exp of [[-F, Q], [0, F^T]] dt: Phi = E22^T, Qd = Phi E12 -- not the form used by the
-code) and writes every state on the filter's grid as a linear function of ONE vector of unit
-white variables xi = (initial, process noise of every step): x_r = A_r xi.  The prior of xi is N(0, I)
+Measurement.compute_matrices) the harness assembles its own F and noise input matrix B (one column per
+white noise source), takes Phi = exp(F dt) and obtains a SQUARE-ROOT factor of
+Qd = int_0^dt exp(F s) B B^T exp(F^T s) ds directly from the DEFINITION by Gauss-Legendre quadrature
+(2 x 24 nodes, QR of the stacked terms) -- no Van Loan block exponential, no matrix square root of a
+rounded covariance -- and writes every state on the filter's grid as a linear function of ONE vector of
+unit white variables xi = (initial (T diag(sd), sqrt P_gyro, sqrt P_accel), process noise of every step):
+x_r = A_r xi.  The prior of xi is N(0, I)
 whatever the rank of P0 and Qd (no inverse of a singular matrix is ever taken).  The estimate after
 the first c measurement blocks is the solution of the stacked least-squares problem
     minimise |xi|^2 + sum_{j<c} |R_j^-1/2 (z_j - H_j A_{r_j} xi)|^2
@@ -835,9 +839,9 @@ def compare_fields(c, run, ref):
     def chk(name, diff, scale, tol):
         nonlocal worst, worst_name
         diff = np.asarray(diff, dtype=float)
-        scale = np.asarray(scale, dtype=float)
         if diff.size == 0:
             return
+        scale = np.broadcast_to(np.asarray(scale, dtype=float), diff.shape)
         ratio = np.abs(diff) / (tol * condf * np.maximum(scale, 1e-300))
         if not np.all(np.isfinite(ratio)):
             f.append(f"{name}: non-finite values")
@@ -847,7 +851,9 @@ def compare_fields(c, run, ref):
             worst, worst_name = w, name
         if w > 1.0:
             k = np.unravel_index(int(np.argmax(ratio)), ratio.shape)
-            f.append(f"{name}: differs from the one-shot Gauss-Markov solution at {tuple(int(x) for x in k)} by "
+            what = ("the harness's own assembly / discretisation from the public model objects"
+                    if name.startswith(('assembled', '_initialize', 'Phi', 'Qd')) else "the one-shot Gauss-Markov solution")
+            f.append(f"{name}: differs from {what} at {tuple(int(x) for x in k)} by "
                      f"{float(np.abs(diff)[k]):.3e} = {w * tol * condf:.2e} x scale {float(np.maximum(scale, 1e-300)[k]):.3e} "
                      f"(tolerance {tol * condf:.1e})")
     if ref['lost']:
@@ -1072,9 +1078,9 @@ def process(r, cases, label, max_report=3):
         if o['fails']:
             nviol += 1
             if nviol <= max_report:
-                small = shrink(c, failing)
+                small = shrink(c, lambda x: bool(_work(x)['fails']))
                 so = _work(small)
-                msg = (so['fails'] or so['trace'] or o['fails'])[0]
+                msg = (so['fails'] or o['fails'])[0]
                 r.log(f"PROPERTY FAILS on the implementation: {msg}")
                 r.violation(msg, dict(case=small, failures=so['fails'] or o['fails'], trace=so['trace'], original=c))
         if o['trace']:
@@ -1111,7 +1117,10 @@ def check(r):
     r.trusted += [
         "hand-written data-flow model Model/FilterFlow.v on top of Model/FeedforwardSched.v (tied to "
         "pyins/filters.py by the exact comparison of the provenance of every recorded (x, P) on generated cases)",
-        "generated MathComp terms of kalman.correct / compute_process_matrices (Gen/Kalman.v, tools/gen_mx.py)",
+        "generated MathComp terms of kalman.correct / compute_process_matrices (Gen/Kalman.v, tools/gen_mx.py) and of "
+        "_initialize_covariance / _compute_error_propagation_matrices (Gen/C11Mx.v, tools/reg/c11.py on top of gen_mx: "
+        "P_pva enters as an opaque diagonal parameter whose recorded assignments are checked, np.diag(q**2) as the "
+        "primitive diag_sq); real-number formulas of _compute_feedforward_result (Gen/C11Gen.v, tools/sym.py)",
         "numpy / scipy linear algebra (expm, cholesky, QR) as used by the code and by the independent reference",
         "binary64 time arithmetic is exact on the generated (dyadic) stamps",
     ]
@@ -1121,15 +1130,16 @@ def check(r):
         "floating-point agreement of the recursion with a batch solver is a numerical statement checked with "
         "tolerances relative to the reported standard deviations",
     ]
-    if os.path.exists(os.path.join(common.VERIF, 'tools', 'reg', 'c11.py')):
-        import importlib
-        importlib.import_module('reg.c11')
-        r.generate(['C11Gen'])
+    import gen
+    import importlib
+    regc11 = importlib.import_module('reg.c11')
+    regc11.run_generate_mx(r)    # matrix-granularity trace of the two assembly functions -> Gen/C11Mx.v
+    r.generate(['C11Gen'])       # traces _compute_feedforward_result (tools/reg/c11.py), validates, rewrites Gen/C11Gen.v
     r.prove('Props/C11.v')
     warm_up()
     rng = random.Random(r.seed * 1000003 + 11)
-    n = 60 if r.tier == 'quick' else 1200
-    nmax = 8 if r.tier == 'quick' else 12
+    n = 200 if r.tier == 'quick' else 3000
+    nmax = 10 if r.tier == 'quick' else 12
     cases = [gen_case(rng, nmax) for _ in range(n)]
     process(r, cases, 'random')
     r.coverage['distribution'] = dict(sorted(r.coverage['distribution'].items()))
